@@ -196,6 +196,12 @@ def hist_case(sc):
     for st, rec in zip(sc["steps"], recs):
         op = rec["op"]
         seq = out_seq(rec["writes"])
+        if op in ("sigwinch", "resize_done"):
+            # urwid's own bookkeeping (a flag, `screen_buf = None`): nothing of the modelled code runs; what
+            # it does to the base class' next `draw_screen` reaches the model through `wrote` and `R`
+            if rec["out"] or rec["exc"]:
+                outs.append(f"unexpected:{op}:{rec['exc']}:{len(rec['out'])}")
+            continue
         if op == "draw":
             base_called = any(isinstance(w, Wd.Marker) and w == "<base" for w in rec["writes"])
             raised = rec["exc"] is not None
@@ -268,6 +274,7 @@ def judge(sc, recs):
                 return Failure(f"order/{term}", f"{where}: a delete command is written among the rows")
             if rec["exc"]:
                 continue
+            pending = rec.get("resize_pending", False)
             # every kitty widget is drawn with the z-index it holds (the one its deletes use), and the
             # z-indexes actually drawn are pairwise distinct among widgets
             by_z: dict = {}
@@ -299,6 +306,8 @@ def judge(sc, recs):
                                f"e.g. {left[0]}" + (f" [after: {zfail.what}]" if zfail else ""))
             if rec["same"] and user_cleared:
                 continue  # urwid redraws nothing for an unchanged canvas: the user's explicit clear stands
+            if pending:
+                continue  # the base class discards a frame drawn while a resize is pending: judged at the next one
             user_cleared = False
             got = rec["placements"]
             if got != exp:
@@ -416,6 +425,33 @@ KNOWN_SCRIPTS = {
         "widgets": [{"style": "kitty", "iw": 40, "ih": 20, "upscale": True}],
         "steps": [{"op": "clear"}, {"op": "stop"}, {"op": "start"},
                   {"op": "draw", "layout": ["hpile", [[4, ["img", 0]], [None, ["fill", "."]]]]}]},
+    # clear_images(now=True) / (now=False), then a redraw in which only the status line changes
+    "clear-now-then-status-change": {
+        "term": "kitty", "W": 30, "H": 10, "cell": [4, 8],
+        "widgets": [{"style": "kitty", "iw": 40, "ih": 20, "upscale": True}],
+        "steps": [{"op": "draw", "layout": ["hpile", [[None, ["hpile", [[4, ["img", 0]], [None, ["fill", "."]]]]], [1, ["fill", "0"]]]]},
+                  {"op": "clear_images", "widgets": [], "now": True},
+                  {"op": "draw", "layout": ["hpile", [[None, ["hpile", [[4, ["img", 0]], [None, ["fill", "."]]]]], [1, ["fill", "1"]]]]},
+                  {"op": "draw", "layout": ["hpile", [[None, ["hpile", [[4, ["img", 0]], [None, ["fill", "."]]]]], [1, ["fill", "2"]]]]}]},
+    "clear-widget-now-then-status-change": {
+        "term": "konsole", "W": 30, "H": 10, "cell": [4, 8],
+        "widgets": [{"style": "kitty", "iw": 40, "ih": 20, "upscale": True}],
+        "steps": [{"op": "draw", "layout": ["hpile", [[None, ["hpile", [[4, ["img", 0]], [None, ["fill", "."]]]]], [1, ["fill", "0"]]]]},
+                  {"op": "clear_images", "widgets": [0], "now": True},
+                  {"op": "draw", "layout": ["hpile", [[None, ["hpile", [[4, ["img", 0]], [None, ["fill", "."]]]]], [1, ["fill", "1"]]]]}]},
+    # SIGWINCH pending while an image moves; the frame is discarded; the size turns out unchanged
+    "resize-pending-image-moves": {
+        "term": "kitty", "W": 30, "H": 12, "cell": [4, 8],
+        "widgets": [{"style": "kitty", "iw": 40, "ih": 20, "upscale": True}],
+        "steps": [{"op": "draw", "layout": ["hpile", [[4, ["img", 0]], [None, ["fill", "."]]]]},
+                  {"op": "sigwinch"},
+                  {"op": "draw", "layout": ["hpile", [[6, ["fill", "x"]], [4, ["img", 0]], [None, ["fill", "."]]]]},
+                  {"op": "resize_done"},
+                  {"op": "draw", "same": True},
+                  {"op": "sigwinch"},
+                  {"op": "draw", "layout": ["hpile", [[4, ["img", 0]], [None, ["fill", "."]]]]},
+                  {"op": "resize_done"},
+                  {"op": "draw", "layout": ["hpile", [[1, ["fill", "y"]], [4, ["img", 0]], [None, ["fill", "."]]]]}]},
     "konsole-iterm2-scroll": {
         "term": "konsole", "W": 30, "H": 12, "cell": [4, 8],
         "widgets": [{"style": "iterm2", "iw": 40, "ih": 40, "upscale": True}, {"style": "kitty", "iw": 40, "ih": 20}],
@@ -432,7 +468,7 @@ from common.py2lean_specs import with_translation  # noqa: E402
 @with_translation
 class C18(Property):
     id = "C18"
-    lean_props = ["TIV.C18.Props"]
+    lean_props = ["TIV.C18.Props", "TIV.Common.LexProofs"]
     driver = "drv_c18"
     partial = ("urwid's canvas composition and row diff (the shards and the set of re-emitted rows are inputs of the "
                "model; `placements_exact_partial` takes the row-diff rule as a hypothesis), kitty/konsole graphics "
@@ -609,6 +645,23 @@ class C18(Property):
     def oracle(self, case: Case, impl_result: str):
         return self._eval(case)[1]
 
+    def extra_checks(self, rng, tier, ev):
+        """The library's own bytes in a screen — the lines of every image canvas met in this run — read by the
+        proved Lean lexer (`lex.run`) and by the two Python tokenizers this harness uses (the shared strict one,
+        and c18_world's for screen output, which adds urwid's cursor addressing etc.): identical readings.
+        A disagreement is a defect of the harness → exception → INFRA, exit 2."""
+        from common import lexcheck
+        outs = list(Wd.IMAGE_LINES)
+        lean = dict(zip(outs, lexcheck.lean_lex_many(self.driver, outs)))
+        bad = lexcheck.cross_check(self.driver, outs, lean)
+        for o in outs:
+            if collapse_wire(lean[o]) != Wd.tokenize(o):
+                bad.append(f"c18 tokenizer: {collapse_wire(lean[o])[:12]} vs {Wd.tokenize(o)[:12]}")
+        ev["coverage"]["lexer_cross_check"] = {"image_canvas_lines": len(outs), "disagreements": len(bad), "first": bad[:3]}
+        if bad:
+            raise RuntimeError(f"lexer cross-check: disagreement on {len(bad)} image canvas lines: {bad[0]}")
+        return []
+
     def search(self, rng, tier, reasons):
         out = []
         zhist = [{"next0": 1, "free0": [], "ops": [["N", "", a], ["N", "", b], ["N", "", c], ["D", 1], ["N", "", a]]}
@@ -634,6 +687,24 @@ class C18(Property):
                 if len(out) > 4:
                     break
         return out
+
+
+def collapse_wire(wire: str):
+    """the shared wire tokens of one line → c18_world's wire (runs of glyphs, attributes as `skip`)"""
+    if wire == "err lex":
+        return None
+    out, run = [], 0
+    for t in wire.split()[1:]:
+        if t[0] == "g":
+            run += 1
+            continue
+        if run:
+            out.append(f"g{run}")
+            run = 0
+        out.append("skip" if t == "m" or t[0] in "fb" else t)
+    if run:
+        out.append(f"g{run}")
+    return out
 
 
 def recs_kind(recs):
